@@ -419,6 +419,26 @@ def b_neq_search_default(xs, enc):
         v = 0
     return v
 
+def a_explicit_defaults(m, xs, doc):
+    import numpy as np
+    from scipy.sparse.csgraph import connected_components
+    n, labels = connected_components(m)
+    return sorted(xs), labels, np.mean(xs), doc.model_dump_json(), "a:b".split(":")
+def b_explicit_defaults(m, xs, doc):
+    import numpy as np
+    from scipy.sparse.csgraph import connected_components
+    n, labels = connected_components(m, directed=True, connection="weak")
+    return sorted(xs, reverse=False), labels, np.mean(xs, axis=None), doc.model_dump_json(exclude_none=False), "a:b".split(":", maxsplit=-1)
+
+def a_neq_option(m, xs):
+    from scipy.sparse.csgraph import connected_components
+    n, labels = connected_components(m)
+    return sorted(xs), labels
+def b_neq_option(m, xs):
+    from scipy.sparse.csgraph import connected_components
+    n, labels = connected_components(m, directed=False)
+    return sorted(xs, reverse=True), labels
+
 def a_neq_order(p, q):
     return [p, q]
 def b_neq_order(p, q):
@@ -429,8 +449,8 @@ EQUAL = ["helper", "raise_in_helper", "ite", "single_exit", "loop_append", "dict
          "partial", "format", "match", "augadd", "display_append", "dict_update", "slice", "gen_helper", "takewhile", "table",
          "record_methods", "any_display", "yield_chain", "unroll", "or_none", "demorgan", "map_fused", "cond_list",
          "search_loop", "comp_display", "star_display", "map_display", "dict_values", "dict_setitem", "empty_appends", "extend_comp",
-         "multi_fill", "local_gen", "zip_display", "search_preset", "cond_record", "local_call"]
-DIFFERENT = ["neq_filter", "neq_later_mutation", "neq_order", "neq_search_default"]
+         "multi_fill", "local_gen", "zip_display", "search_preset", "cond_record", "local_call", "explicit_defaults"]
+DIFFERENT = ["neq_filter", "neq_later_mutation", "neq_order", "neq_search_default", "neq_option"]
 
 
 def _alpha(t, mp):
